@@ -378,6 +378,18 @@ func (s *sender) resendSegment() {
 
 	// Resend the segment.
 	if seg := s.writeList.Front(); seg != nil {
+		if seg.data.Size() > s.maxPayloadSize {
+			// The maximum payload size was reduced (path MTU) after this
+			// segment was queued: split it, as sendData does, so that the
+			// retransmission fits.
+			nSeg := seg.clone()
+			nSeg.data.TrimFront(s.maxPayloadSize)
+			nSeg.sequenceNumber.UpdateForward(seqnum.Size(s.maxPayloadSize))
+			s.writeList.InsertAfter(seg, nSeg)
+			seg.data.CapLength(s.maxPayloadSize)
+			// One outstanding packet became two.
+			s.outstanding++
+		}
 		s.sendSegment(seg.data, seg.flags, seg.sequenceNumber)
 	}
 }
